@@ -62,7 +62,7 @@ func init() {
 			Stub: []string{"the caller side of the handler contract (harness)"},
 			Assumptions: []string{"every ProcessList method is a single critical section, so interleaving at call boundaries is complete for the API-level check",
 				"connections follow the calling contract of server/handler.go and server/context.go (no RemoveConnection while the same connection's query is in flight)",
-				"the single-critical-section assumption is itself guarded by C37r: real goroutines (connections cycling queries, killers, observers) on GOMAXPROCS=4 in a race-detector build; there the schedule is the Go runtime's, so only a data race report, a panic and the joined end state are judged"},
+				"C37b ends with clients that never authenticate (leave after the greeting / after their response / refused) before its closing-phase oracle (process list empty, Threads_connected back)", "the single-critical-section assumption is itself guarded by C37r: real goroutines (connections cycling queries, killers, observers) on GOMAXPROCS=4 in a race-detector build; there the schedule is the Go runtime's, so only a data race report, a panic and the joined end state are judged"},
 			Subs: []subCheck{
 				{ID: "C37a", World: "unitsim", Quick: 60000, Thorough: 3000000, QuickCap: 60, ThoroughCap: 900, Probes: []string{"kill-hit-running-work", "kill", "stale-endquery-while-next-query-runs"}},
 				{ID: "C37r", World: "unitsim", Race: true, Procs: 4, MaxWorkers: 4, Quick: 400, Thorough: 40000, QuickCap: 90, ThoroughCap: 900, ShrinkS: 60,
